@@ -114,8 +114,9 @@ RReload(t) == /\ pc[t] = "r_reload"
 HDecide(t) == /\ pc[t] = "h_decide"
               /\ LET c == Op(t).c d == cur[t]
                      pass == loc[t].int # "Never" /\ (loc[t].int = "Always" \/ (d # 0 /\ Accepts(d, c)))
-                 IN delivered' = IF pass /\ d # 0 THEN Append(delivered, [t |-> t, c |-> c, d |-> d, ok |-> Accepts(d, c)])
-                                 ELSE IF d # 0 /\ Accepts(d, c) THEN Append(delivered, [t |-> t, c |-> c, d |-> 0, ok |-> FALSE])   \* a missed delivery
+                     \* seen: had register_callsite(d, c) been called when the collector received / was asked about c ?
+                 IN delivered' = IF pass /\ d # 0 THEN Append(delivered, [t |-> t, c |-> c, d |-> d, ok |-> Accepts(d, c), seen |-> c \in offered[d]])
+                                 ELSE IF d # 0 /\ Accepts(d, c) THEN Append(delivered, [t |-> t, c |-> c, d |-> 0, ok |-> FALSE, seen |-> TRUE])   \* a missed delivery
                                  ELSE delivered
               /\ NextOp(t)
               /\ U(<<cur, loc, alive, registrars, readers, writer, interest, regstate, head, nxt, maxLevel, offered>>)
@@ -168,6 +169,10 @@ Spec == Init /\ [][Next]_vars /\ \A t \in Threads : WF_vars(Step(t))
 (* ------------------------------ properties ------------------------------ *)
 \* a delivery goes only to a collector that accepts it, and a thread's own installed collector never misses one
 JudgedByOwnCollector == \A i \in DOMAIN delivered : delivered[i].ok
+\* NOT an invariant of the code (known finding F20): a collector receives an emission of a callsite that was never offered to it --
+\* the thread that loses the REGISTERING race proceeds with `sometimes` before the winner's register_callsite pass has run.
+\* Stateful filters (EnvFilter's by_cs table) depend on having been offered the callsite first.
+OfferedBeforeUse == \A i \in DOMAIN delivered : delivered[i].seen
 NoDeadlock == AllDone \/ \E t \in Threads : ENABLED Step(t)
 \* nothing stranded once the activity has quiesced
 Quiescent == AllDone =>
